@@ -1,71 +1,935 @@
-//! probe (temporary)
+//! Layered filesystem and path localisation (C12, C13, C14).
+//!
+//!   localize <cases.ndjson> <out.ndjson>
+//!       spec -> impl for C14: every case {loc, lang, raw, allowed:[{ok,s}]} printed by Gen_Localize is run
+//!       through the real PathLocalizer::localize and compared string-for-string.
+//!   replay <cases.ndjson> <out.ndjson> [--from k]
+//!       spec -> impl for C12/C13: a case is {game, lang, layers, events, fresh}: the state printed by
+//!       Gen_LayeredFS is materialised as real directories (one per layer), the calls are applied to a real
+//!       LayeredFilesystem and everything observed is RECORDED (result, full walk of every layer after the
+//!       call, observed environment functions).  Nothing is judged here: Trace_LayeredFS (TLC) decides.
+//!   record <out.ndjson> <runs> <len> [--from k]
+//!       impl -> spec: seeded random layer trees and call histories, recorded in the same format.
+//! Output of replay/record: one line per case/run {"i", "events":[...]} (protocol of util::run_isolated, so an
+//! abort of the code under test is attributed to its case).
+use indexmap::IndexMap;
 use mila::*;
+use mvh::proj;
 use mvh::util::*;
+use serde_json::{json, Map, Value};
+use std::collections::HashMap;
+use std::path::{Path, PathBuf};
+
+// ---------------------------------------------------------------------------------------------- names
+fn game_of(s: &str) -> Game {
+    match s {
+        "FE9" => Game::FE9,
+        "FE10" => Game::FE10,
+        "FE11" => Game::FE11,
+        "FE12" => Game::FE12,
+        "FE13" => Game::FE13,
+        "FE14" => Game::FE14,
+        "FE15" => Game::FE15,
+        _ => usage("game name"),
+    }
+}
+fn lang_of(s: &str) -> Language {
+    match s {
+        "EnglishNA" => Language::EnglishNA,
+        "EnglishEU" => Language::EnglishEU,
+        "Japanese" => Language::Japanese,
+        "Spanish" => Language::Spanish,
+        "French" => Language::French,
+        "Italian" => Language::Italian,
+        "German" => Language::German,
+        "Dutch" => Language::Dutch,
+        _ => usage("language name"),
+    }
+}
+fn localizer_of(s: &str) -> PathLocalizer {
+    match s {
+        "NoOp" => PathLocalizer::NoOp(NoOpPathLocalizer {}),
+        "FE9" => PathLocalizer::FE9(FE9PathLocalizer {}),
+        "FE10" => PathLocalizer::FE10(FE10PathLocalizer {}),
+        "FE13" => PathLocalizer::FE13(FE13PathLocalizer {}),
+        "FE14" => PathLocalizer::FE14(FE14PathLocalizer {}),
+        "FE15" => PathLocalizer::FE15(FE15PathLocalizer {}),
+        _ => usage("localizer name"),
+    }
+}
+const GAMES: [&str; 5] = ["FE9", "FE10", "FE13", "FE14", "FE15"];
+const LANGS: [&str; 8] = ["EnglishNA", "EnglishEU", "Japanese", "Spanish", "French", "Italian", "German", "Dutch"];
+
+fn bytes_to_string(v: &Value) -> String {
+    String::from_utf8(json_to_bytes(v)).unwrap_or_else(|_| usage("path bytes are not UTF-8"))
+}
+
+// ---------------------------------------------------------------------------------------------- C14
+fn localize_mode(cases_path: &str, out_path: &str) {
+    let cases = read_ndjson(cases_path);
+    let mut out = NdWriter::create(out_path);
+    let (mut n, mut bad) = (0u64, 0u64);
+    for (i, c) in cases.iter().enumerate() {
+        n += 1;
+        let l = localizer_of(c["loc"].as_str().unwrap());
+        let lang = lang_of(c["lang"].as_str().unwrap());
+        let raw = bytes_to_string(&c["raw"]);
+        let got = match catch(|| l.localize(&raw, &lang)) {
+            Ok(Ok(s)) => json!({"ok": true, "s": bytes_to_json(s.as_bytes())}),
+            Ok(Err(_)) => json!({"ok": false, "s": []}),
+            Err(p) => json!({"panic": p}),
+        };
+        if !c["allowed"].as_array().unwrap().iter().any(|a| a == &got) {
+            bad += 1;
+            let shown = match got.get("s") {
+                Some(s) => String::from_utf8_lossy(&json_to_bytes(s)).to_string(),
+                None => String::new(),
+            };
+            out.put(&json!({"kind": "mismatch", "i": i, "case": c, "got": got, "path": raw, "got_str": shown}));
+        }
+    }
+    out.put(&json!({"kind": "summary", "cases": n, "mismatches": bad}));
+    out.finish();
+}
+
+// ---------------------------------------------------------------------------------------------- world
+struct World {
+    root: PathBuf,
+    layers: Vec<PathBuf>,
+    canon: Vec<String>,
+}
+static COUNTER: std::sync::atomic::AtomicUsize = std::sync::atomic::AtomicUsize::new(0);
+
+impl World {
+    fn create(nlayers: usize) -> World {
+        let k = COUNTER.fetch_add(1, std::sync::atomic::Ordering::Relaxed);
+        let root = std::env::temp_dir().join(format!("mvhfs{}x{}", std::process::id(), k));
+        let _ = std::fs::remove_dir_all(&root);
+        let mut layers = Vec::new();
+        for i in 0..nlayers {
+            let l = root.join(format!("l{}", i + 1));
+            std::fs::create_dir_all(&l).expect("create layer dir");
+            layers.push(l);
+        }
+        let canon = layers.iter().map(|l| std::fs::canonicalize(l).unwrap().display().to_string()).collect();
+        World { root, layers, canon }
+    }
+    fn layer_strings(&self) -> Vec<String> {
+        self.layers.iter().map(|l| l.display().to_string()).collect()
+    }
+}
+impl Drop for World {
+    fn drop(&mut self) {
+        let _ = std::fs::remove_dir_all(&self.root);
+    }
+}
+
+fn comps_to_rel(p: &Value) -> PathBuf {
+    let mut r = PathBuf::new();
+    for c in p.as_array().unwrap() {
+        r.push(bytes_to_string(c));
+    }
+    r
+}
+
+/// observed environment function: what the two decompressors make of stored bytes
+fn xobs(b: &[u8]) -> Value {
+    let one = |r: Result<Result<Vec<u8>, CompressionError>, String>| match r {
+        Ok(Ok(v)) => json!({"ok": true, "v": bytes_to_json(&v)}),
+        _ => json!({"ok": false, "v": []}),
+    };
+    json!({
+        "lz10": one(catch(|| LZ10CompressionFormat {}.decompress(b))),
+        "lz13": one(catch(|| LZ13CompressionFormat {}.decompress(b))),
+    })
+}
+fn no_x() -> Value {
+    json!({"lz10": {"ok": false, "v": []}, "lz13": {"ok": false, "v": []}})
+}
+
+fn materialise(layers: &Value) -> Result<World, String> {
+    let ls = layers.as_array().ok_or("layers")?;
+    let w = World::create(ls.len());
+    for (i, l) in ls.iter().enumerate() {
+        let mut nodes: Vec<&Value> = l.as_array().ok_or("layer")?.iter().collect();
+        nodes.sort_by_key(|n| n["p"].as_array().unwrap().len());
+        for n in nodes {
+            let full = w.layers[i].join(comps_to_rel(&n["p"]));
+            match n["k"].as_str() {
+                Some("dir") => std::fs::create_dir_all(&full).map_err(|e| e.to_string())?,
+                Some("file") => {
+                    if let Some(parent) = full.parent() {
+                        std::fs::create_dir_all(parent).map_err(|e| e.to_string())?;
+                    }
+                    std::fs::write(&full, json_to_bytes(&n["b"])).map_err(|e| e.to_string())?
+                }
+                _ => return Err("node kind".into()),
+            }
+        }
+    }
+    Ok(w)
+}
+
+fn walk(dir: &Path, prefix: &mut Vec<Value>, out: &mut Vec<Value>) {
+    let mut entries: Vec<_> = std::fs::read_dir(dir).expect("read_dir").map(|e| e.expect("dir entry")).collect();
+    entries.sort_by_key(|e| e.file_name());
+    for e in entries {
+        let name = e.file_name();
+        let name = name.to_str().expect("utf-8 name").as_bytes().to_vec();
+        prefix.push(bytes_to_json(&name));
+        let ft = e.file_type().expect("file type");
+        if ft.is_dir() {
+            out.push(json!({"p": prefix.clone(), "k": "dir", "b": [], "x": no_x()}));
+            walk(&e.path(), prefix, out);
+        } else {
+            let b = std::fs::read(e.path()).expect("read file");
+            out.push(json!({"p": prefix.clone(), "k": if ft.is_file() { "file" } else { "other" }, "b": bytes_to_json(&b), "x": xobs(&b)}));
+        }
+        prefix.pop();
+    }
+}
+/// full walk of every layer
+fn snapshot(w: &World) -> Value {
+    let mut ls = Vec::new();
+    for l in &w.layers {
+        let mut nodes = Vec::new();
+        walk(l, &mut Vec::new(), &mut nodes);
+        ls.push(Value::Array(nodes));
+    }
+    Value::Array(ls)
+}
+fn canon_layers(layers: &Value) -> Vec<Vec<String>> {
+    layers
+        .as_array()
+        .unwrap()
+        .iter()
+        .map(|l| {
+            let mut v: Vec<String> = l.as_array().unwrap().iter().map(|n| n.to_string()).collect();
+            v.sort();
+            v
+        })
+        .collect()
+}
+
+// ---------------------------------------------------------------------------------------------- results
+fn class_of(e: &LayeredFilesystemError) -> &'static str {
+    use LayeredFilesystemError::*;
+    match e {
+        FileNotFound(..) => "notfound",
+        LocalizationError(..) => "loc",
+        IOError(..) | ReadError(..) | WriteError(..) => "io",
+        CompressionError(..) | ArchiveError(..) | TextArchiveError(..) | TextureParseError(..) | ArcError(..) => "codec",
+        UnsupportedGame => "unsupported",
+        NoLayers | NoWriteableLayers => "nolayers",
+        PatternError(..) => "pattern",
+        OtherError(..) => "other",
+    }
+}
+fn ok(v: Value) -> Value {
+    json!({"ok": true, "e": "", "v": v})
+}
+fn err(class: &str, dv: Value) -> Value {
+    json!({"ok": false, "e": class, "v": dv})
+}
+fn wrap<T>(r: Result<Result<T, LayeredFilesystemError>, String>, dv: Value, f: impl FnOnce(T) -> Value) -> Value {
+    match r {
+        Ok(Ok(v)) => ok(f(v)),
+        Ok(Err(e)) => err(class_of(&e), dv),
+        Err(p) => json!({"panic": p}),
+    }
+}
+/// result of a parser called directly (observed codec)
+fn wrapc<T, E>(r: Result<Result<T, E>, String>, f: impl FnOnce(T) -> Value) -> Value {
+    match r {
+        Ok(Ok(v)) => ok(f(v)),
+        Ok(Err(_)) => err("codec", json!([])),
+        Err(p) => json!({"panic": p}),
+    }
+}
+
+// ---------------------------------------------------------------------------------------------- typed projections
+fn proj_bin(a: &BinArchive) -> Value {
+    let mut p = proj::project(a, "");
+    p.as_object_mut().unwrap().remove("endian");
+    p
+}
+fn proj_text(a: &TextArchive) -> Value {
+    let entries: Vec<Value> = a.get_entries().iter().map(|(k, m)| json!([str_to_codes(k), str_to_codes(m)])).collect();
+    json!({"title": str_to_codes(a.get_title()), "entries": entries})
+}
+fn proj_pack(m: &IndexMap<String, Vec<u8>>) -> Value {
+    Value::Array(m.iter().map(|(k, v)| json!([str_to_codes(k), bytes_to_json(v)])).collect())
+}
+fn proj_arc(m: &HashMap<String, Vec<u8>>) -> Value {
+    let mut ks: Vec<&String> = m.keys().collect();
+    ks.sort();
+    Value::Array(ks.into_iter().map(|k| json!([str_to_codes(k), bytes_to_json(&m[k])])).collect())
+}
+fn proj_tex(t: &Texture) -> Value {
+    json!({"name": str_to_codes(&t.filename), "w": t.width, "h": t.height, "px": bytes_to_json(&t.pixel_data)})
+}
+fn proj_texvec(v: &[Texture]) -> Value {
+    Value::Array(v.iter().map(proj_tex).collect())
+}
+fn proj_texmap(m: &HashMap<String, Texture>) -> Value {
+    let mut ks: Vec<&String> = m.keys().collect();
+    ks.sort();
+    Value::Array(ks.into_iter().map(|k| json!([str_to_codes(k), proj_tex(&m[k])])).collect())
+}
+fn vec_to_map(v: Vec<Texture>) -> HashMap<String, Texture> {
+    v.into_iter().map(|t| (t.filename.clone(), t)).collect()
+}
+
+/// archives handed to write_archive / write_text_archive
+fn fixture_bin(endian: Endian) -> BinArchive {
+    let mut a = BinArchive::new(endian);
+    a.allocate_at_end(16);
+    a.write_u32(0, 0x01020304).unwrap();
+    a.write_string(4, Some("abc")).unwrap();
+    a.write_pointer(8, Some(0)).unwrap();
+    a.write_label(12, "L").unwrap();
+    a
+}
+fn fixture_text(f: TextArchiveFormat, e: Endian) -> TextArchive {
+    let mut a = TextArchive::new(f, e);
+    a.set_title("T".to_string());
+    a.set_message("k1", "hello");
+    a.set_message("k2", "a\\nb");
+    a
+}
+
+// ---------------------------------------------------------------------------------------------- applying one call
+struct Sys {
+    fs: LayeredFilesystem,
+    canon: Vec<String>,
+}
+
+fn project_resolved(sys: &Sys, p: &Path) -> Value {
+    let s = p.display().to_string();
+    for (i, c) in sys.canon.iter().enumerate().rev() {
+        if s == *c {
+            return json!({"layer": i + 1, "rel": []});
+        }
+        let pre = format!("{}/", c);
+        if let Some(rest) = s.strip_prefix(&pre) {
+            return json!({"layer": i + 1, "rel": bytes_to_json(rest.as_bytes())});
+        }
+    }
+    json!({"layer": 0, "rel": bytes_to_json(s.as_bytes())})
+}
+fn strings_to_json(v: Vec<String>) -> Value {
+    Value::Array(v.iter().map(|s| bytes_to_json(s.as_bytes())).collect())
+}
+
+/// Applies ev; returns the fields to add to the recorded event (res, and the observations of typed helpers).
+fn apply(sys: &Sys, ev: &Value) -> Map<String, Value> {
+    let fs = &sys.fs;
+    let path = bytes_to_string(&ev["raw"]);
+    let path = path.as_str();
+    let loc = ev["loc"].as_bool().unwrap();
+    let op = ev["op"].as_str().unwrap();
+    let mut extra = Map::new();
+    let bytes_res = |r: Result<Result<Vec<u8>, LayeredFilesystemError>, String>| wrap(r, json!([]), |v| bytes_to_json(&v));
+    let res = match op {
+        "read" => bytes_res(catch(|| fs.read(path, loc))),
+        "write" => {
+            let data = json_to_bytes(&ev["data"]);
+            wrap(catch(|| fs.write(path, &data, loc)), json!([]), |_| json!([]))
+        }
+        "create_dir" => wrap(catch(|| fs.create_dir(path, loc)), json!([]), |_| json!([])),
+        "exists" => wrap(catch(|| fs.exists(path, loc)), json!(false), |b| json!(b)),
+        "file_exists" => wrap(catch(|| fs.file_exists(path, loc)), json!(false), |b| json!(b)),
+        "directory_exists" => wrap(catch(|| fs.directory_exists(path, loc)), json!(false), |b| json!(b)),
+        "resolve" => match catch(|| fs.resolve(path, loc)) {
+            Ok(Some(p)) => ok(project_resolved(sys, &p)),
+            Ok(None) => err("none", json!({"layer": 0, "rel": []})),
+            Err(p) => json!({"panic": p}),
+        },
+        "list" => {
+            let g = if ev["glob"]["some"].as_bool().unwrap() { Some(ev["glob"]["s"].as_str().unwrap()) } else { None };
+            wrap(catch(|| fs.list(path, g, loc)), json!([]), strings_to_json)
+        }
+        "subdirectories" => wrap(catch(|| fs.subdirectories(path, loc)), json!([]), strings_to_json),
+        "write_archive" | "write_text_archive" => {
+            // the archive is built here; its serialisation is an observation, the helper must write exactly that
+            let be = ev["fix"].as_str().unwrap_or("le") == "be";
+            let endian = if be { Endian::Big } else { Endian::Little };
+            if op == "write_archive" {
+                let a = fixture_bin(endian);
+                extra.insert("ser".into(), wrapc(catch(|| a.serialize()), |v| bytes_to_json(&v)));
+                wrap(catch(|| fs.write_archive(path, &a, loc)), json!([]), |_| json!([]))
+            } else {
+                let a = fixture_text(if be { TextArchiveFormat::ShiftJIS } else { TextArchiveFormat::Unicode }, endian);
+                extra.insert("ser".into(), wrapc(catch(|| a.serialize()), |v| bytes_to_json(&v)));
+                wrap(catch(|| fs.write_text_archive(path, &a, loc)), json!([]), |_| json!([]))
+            }
+        }
+        _ => {
+            // typed readers: the byte-level read (observed), the parser on exactly those bytes (observed), the helper
+            let rd = catch(|| fs.read(path, loc));
+            let bytes: Vec<u8> = match &rd {
+                Ok(Ok(b)) => b.clone(),
+                _ => Vec::new(),
+            };
+            let have = matches!(&rd, Ok(Ok(_)));
+            extra.insert("rd".into(), bytes_res(rd));
+            let b = bytes.as_slice();
+            let none = json!({"ok": false, "e": "codec", "v": []});
+            let (cd, res) = match op {
+                "read_archive" => (
+                    json!({
+                        "le": if have { wrapc(catch(|| BinArchive::from_bytes(b, Endian::Little)), |a| proj_bin(&a)) } else { none.clone() },
+                        "be": if have { wrapc(catch(|| BinArchive::from_bytes(b, Endian::Big)), |a| proj_bin(&a)) } else { none.clone() },
+                    }),
+                    wrap(catch(|| fs.read_archive(path, loc)), json!([]), |a| proj_bin(&a)),
+                ),
+                "read_text_archive" => {
+                    let mut m = Map::new();
+                    for (k, f, e) in [
+                        ("sjis-be", TextArchiveFormat::ShiftJIS, Endian::Big),
+                        ("sjis-le", TextArchiveFormat::ShiftJIS, Endian::Little),
+                        ("unicode-be", TextArchiveFormat::Unicode, Endian::Big),
+                        ("unicode-le", TextArchiveFormat::Unicode, Endian::Little),
+                    ] {
+                        m.insert(k.into(), if have { wrapc(catch(|| TextArchive::from_bytes(b, f, e)), |a| proj_text(&a)) } else { none.clone() });
+                    }
+                    (Value::Object(m), wrap(catch(|| fs.read_text_archive(path, loc)), json!([]), |a| proj_text(&a)))
+                }
+                "read_fe9_arc" => (
+                    json!({"any": if have { wrapc(catch(|| fe9_arc::parse(b)), |m| proj_pack(&m)) } else { none.clone() }}),
+                    wrap(catch(|| fs.read_fe9_arc(path, loc)), json!([]), |m| proj_pack(&m)),
+                ),
+                "read_arc" => (
+                    json!({"any": if have { wrapc(catch(|| arc::from_bytes(b)), |m| proj_arc(&m)) } else { none.clone() }}),
+                    wrap(catch(|| fs.read_arc(path, loc)), json!([]), |m| proj_arc(&m)),
+                ),
+                "read_tpl_textures" => (
+                    json!({"any": if have { wrapc(catch(|| tpl::Tpl::extract_textures(b)), |v| proj_texvec(&v)) } else { none.clone() }}),
+                    wrap(catch(|| fs.read_tpl_textures(path, loc)), json!([]), |v| proj_texvec(&v)),
+                ),
+                "read_bch_textures" => (
+                    json!({"any": if have { wrapc(catch(|| bch::read(b)), |v| proj_texmap(&vec_to_map(v))) } else { none.clone() }}),
+                    wrap(catch(|| fs.read_bch_textures(path, loc)), json!([]), |m| proj_texmap(&m)),
+                ),
+                "read_ctpk_textures" => (
+                    json!({"any": if have { wrapc(catch(|| ctpk::read(b)), |v| proj_texmap(&vec_to_map(v))) } else { none.clone() }}),
+                    wrap(catch(|| fs.read_ctpk_textures(path, loc)), json!([]), |m| proj_texmap(&m)),
+                ),
+                "read_cgfx_textures" => (
+                    json!({"any": if have { wrapc(catch(|| cgfx::read(b)), |v| proj_texmap(&vec_to_map(v))) } else { none.clone() }}),
+                    wrap(catch(|| fs.read_cgfx_textures(path, loc)), json!([]), |m| proj_texmap(&m)),
+                ),
+                other => usage(&format!("unknown op {}", other)),
+            };
+            extra.insert("cd".into(), cd);
+            res
+        }
+    };
+    extra.insert("res".into(), res);
+    extra
+}
+
+fn open(w: &World, game: &str, lang: &str) -> Result<Sys, Value> {
+    match catch(|| LayeredFilesystem::new(w.layer_strings(), lang_of(lang), game_of(game))) {
+        Ok(Ok(fs)) => Ok(Sys { fs, canon: w.canon.clone() }),
+        Ok(Err(e)) => Err(err(class_of(&e), json!([]))),
+        Err(p) => Err(json!({"panic": p})),
+    }
+}
+
+/// materialise + open + emit the reset event; None if the state could not be established
+fn establish(layers: &Value, game: &str, lang: &str, events: &mut Vec<Value>) -> Option<(World, Sys, Value)> {
+    let w = match materialise(layers) {
+        Ok(w) => w,
+        Err(e) => {
+            events.push(json!({"op": "unbuildable", "why": e}));
+            return None;
+        }
+    };
+    let snap = snapshot(&w);
+    if canon_layers(&snap) != canon_layers(layers) {
+        events.push(json!({"op": "unbuildable", "why": "materialised state differs from the generated one (tree or observed expansions)",
+                           "want": layers, "got": snap}));
+        return None;
+    }
+    match open(&w, game, lang) {
+        Ok(sys) => {
+            events.push(json!({"op": "reset", "game": game, "lang": lang, "res": ok(json!([])), "same": false, "post": snap}));
+            Some((w, sys, snap))
+        }
+        Err(res) => {
+            events.push(json!({"op": "new", "game": game, "lang": lang, "res": res, "same": true, "post": []}));
+            None
+        }
+    }
+}
+
+/// C14: the explicit-path twin of a localized call: same call, localized = false, on the path that the
+/// filesystem's own localizer (checked string-for-string against Localize.tla elsewhere) maps the request to.
+fn twin_of(sys: &Sys, ev: &Value) -> Option<Value> {
+    if !ev["loc"].as_bool().unwrap_or(false) {
+        return None;
+    }
+    let raw = bytes_to_string(&ev["raw"]);
+    let lang = sys.fs.language();
+    let mapped = match catch(|| sys.fs.localizer().localize(&raw, &lang)) {
+        Ok(Ok(s)) => s,
+        _ => return None,
+    };
+    let comps: Vec<String> = mapped.split('/').filter(|c| !c.is_empty()).map(|c| c.to_string()).collect();
+    let mut t = ev.clone();
+    t["loc"] = json!(false);
+    t["raw"] = bytes_to_json(mapped.as_bytes());
+    t["p"] = json!({"c": comps_json(&comps), "t": mapped.ends_with('/') && !comps.is_empty()});
+    t["is_twin"] = json!(true);
+    Some(t)
+}
+
+fn run_events(w: &World, sys: &Sys, mut snap: Value, evs: &[Value], events: &mut Vec<Value>) -> Value {
+    for ev in evs {
+        let mut rec = ev.as_object().unwrap().clone();
+        for (k, v) in apply(sys, ev) {
+            rec.insert(k, v);
+        }
+        let after = snapshot(w);
+        if after == snap {
+            rec.insert("same".into(), json!(true));
+            rec.insert("post".into(), json!([]));
+        } else {
+            rec.insert("same".into(), json!(false));
+            rec.insert("post".into(), after.clone());
+            snap = after;
+        }
+        events.push(Value::Object(rec));
+    }
+    snap
+}
+
+// ---------------------------------------------------------------------------------------------- replay of generated cases
+fn parse_from(args: &[String]) -> usize {
+    match args.iter().position(|a| a == "--from") {
+        Some(i) => args[i + 1].parse().unwrap(),
+        None => 0,
+    }
+}
+
+fn replay_mode(cases_path: &str, out_path: &str, from: usize) {
+    let cases = read_ndjson(cases_path);
+    run_isolated(&cases, from, out_path, |_, c| {
+        let game = c["game"].as_str().unwrap();
+        let lang = c["lang"].as_str().unwrap();
+        let evs = c["events"].as_array().unwrap();
+        let fresh = c["fresh"].as_bool().unwrap();
+        let mut events = Vec::new();
+        let twins = c["twins"].as_bool().unwrap_or(false);
+        if fresh {
+            // every call starts from the generated state
+            for ev in evs {
+                let mut twin = None;
+                if let Some((w, sys, snap)) = establish(&c["layers"], game, lang, &mut events) {
+                    run_events(&w, &sys, snap, std::slice::from_ref(ev), &mut events);
+                    if twins {
+                        twin = twin_of(&sys, ev);
+                    }
+                }
+                if let Some(t) = twin {
+                    if let Some((w, sys, snap)) = establish(&c["layers"], game, lang, &mut events) {
+                        run_events(&w, &sys, snap, std::slice::from_ref(&t), &mut events);
+                    }
+                }
+            }
+        } else if let Some((w, sys, mut snap)) = establish(&c["layers"], game, lang, &mut events) {
+            for ev in evs {
+                snap = run_events(&w, &sys, snap, std::slice::from_ref(ev), &mut events);
+                if twins {
+                    if let Some(t) = twin_of(&sys, ev) {
+                        snap = run_events(&w, &sys, snap, std::slice::from_ref(&t), &mut events);
+                    }
+                }
+            }
+        }
+        json!({"events": events})
+    });
+}
+
+// ---------------------------------------------------------------------------------------------- random histories
+const NAMES: [&str; 30] = [
+    "a", "a.b", "z", "m", "d", "e", "f.bin", "g.bin.lz", "h.cmp", "i.cms", "x", "xy", "k.bin", "q", "a b", ".h", "\u{e9}",
+    "s_x", "s_f.bin", "e_x", "d_g.bin.lz", "f_h.cmp", "@E", "E", "S", "@S", "@NOE_SP", "@NOA_EN", "@J", "G",
+];
+const GLOBS: [Option<&str>; 6] = [None, Some("*"), Some("*.bin"), Some("x*"), Some("**/*.bin"), Some("**/*")];
+
+fn rand_payload(rng: &mut Rng) -> Vec<u8> {
+    match rng.below(10) {
+        0 => vec![],
+        1 => vec![rng.next() as u8],
+        2 | 3 => {
+            let n = rng.range(2, 12);
+            rng.bytes(n)
+        }
+        4 | 5 => vec![rng.next() as u8; rng.range(3, 60)], // a run
+        6 => {
+            // periodic
+            let p = rng.range(1, 4);
+            let pat = rng.bytes(p);
+            (0..rng.range(4, 70)).map(|i| pat[i % p]).collect()
+        }
+        7 => {
+            let n = rng.range(20, 48);
+            rng.bytes(n) // incompressible
+        }
+        _ => {
+            let n = rng.range(1, 6);
+            (0..n).map(|i| b'a' + i as u8).collect()
+        }
+    }
+}
+
+fn comps_json(c: &[String]) -> Value {
+    Value::Array(c.iter().map(|s| bytes_to_json(s.as_bytes())).collect())
+}
+fn mk_event(op: &str, c: &[String], t: bool, loc: bool) -> Value {
+    let mut raw = c.join("/");
+    if t && !c.is_empty() {
+        raw.push('/');
+    }
+    json!({"op": op, "p": {"c": comps_json(c), "t": t && !c.is_empty()}, "raw": bytes_to_json(raw.as_bytes()), "loc": loc,
+           "data": [], "glob": {"some": false, "s": ""}})
+}
+
+/// stored content for a file created directly in a layer (not through mila's write)
+fn rand_stored(rng: &mut Rng, name: &str) -> Vec<u8> {
+    let suffixed = name.ends_with(".lz") || name.ends_with(".cmp") || name.ends_with(".cms");
+    if suffixed && rng.chance(3, 4) {
+        let mut p = rand_payload(rng);
+        if p.is_empty() {
+            p.push(9);
+        }
+        let lz13 = if name.ends_with(".lz") { !rng.chance(1, 6) } else { rng.chance(1, 6) };
+        let r = if lz13 { catch(|| LZ13CompressionFormat {}.compress(&p)) } else { catch(|| LZ10CompressionFormat {}.compress(&p)) };
+        match r {
+            Ok(Ok(mut s)) => {
+                if rng.chance(1, 8) && s.len() > 5 {
+                    let k = rng.range(4, s.len() - 1);
+                    s.truncate(k); // truncated stream
+                }
+                s
+            }
+            _ => p,
+        }
+    } else {
+        rand_payload(rng)
+    }
+}
+
+struct Pool {
+    paths: Vec<Vec<String>>,
+}
+fn rand_rel(rng: &mut Rng, depth_max: usize) -> Vec<String> {
+    let d = rng.range(1, depth_max);
+    (0..d).map(|_| rng.pick(&NAMES).to_string()).collect()
+}
+
+fn build_random_world(rng: &mut Rng, pool: &mut Pool) -> World {
+    let nl = rng.range(1, 4);
+    let w = World::create(nl);
+    let budget = rng.range(0, 40);
+    let mut made = 0;
+    let mut guard = 0;
+    while made < budget && guard < 400 {
+        guard += 1;
+        let li = rng.below(nl);
+        // prefer paths already used in another layer so that shadowing is frequent
+        let rel = if !pool.paths.is_empty() && rng.chance(1, 2) { rng.pick(&pool.paths).clone() } else { rand_rel(rng, 3) };
+        let full = w.layers[li].join(rel.join("/"));
+        if full.exists() {
+            continue;
+        }
+        let as_dir = rng.chance(1, 3);
+        let r = if as_dir {
+            std::fs::create_dir_all(&full)
+        } else {
+            full.parent().map(std::fs::create_dir_all).unwrap_or(Ok(())).and_then(|_| std::fs::write(&full, rand_stored(rng, rel.last().unwrap())))
+        };
+        if r.is_ok() {
+            made += rel.len();
+            pool.paths.push(rel);
+        }
+    }
+    w
+}
+
+/// strip a language marker so that the localized call finds the file
+fn unlocalize(rng: &mut Rng, rel: &[String]) -> Vec<String> {
+    let mut r: Vec<String> = rel.to_vec();
+    if r.len() >= 2 && (r[r.len() - 2].starts_with('@') || r[r.len() - 2].len() == 1 && r[r.len() - 2].chars().all(|c| c.is_ascii_uppercase())) && rng.chance(2, 3) {
+        r.remove(r.len() - 2);
+    } else if let Some(last) = r.last_mut() {
+        if last.len() > 2 && last.as_bytes()[1] == b'_' && rng.chance(2, 3) {
+            *last = last[2..].to_string();
+        }
+    }
+    r
+}
+
+fn rand_path(rng: &mut Rng, pool: &Pool, loc: bool) -> Vec<String> {
+    let r = rng.below(20);
+    if r == 0 {
+        return vec![]; // the root
+    }
+    if !pool.paths.is_empty() && r < 15 {
+        let mut p = rng.pick(&pool.paths).clone();
+        if loc {
+            p = unlocalize(rng, &p);
+        }
+        match rng.below(8) {
+            0 if p.len() > 1 => {
+                p.pop();
+            }
+            1 => p.push(rng.pick(&NAMES).to_string()),
+            _ => {}
+        }
+        p
+    } else {
+        rand_rel(rng, 3)
+    }
+}
+
+const TYPED_READS: [&str; 8] = [
+    "read_archive", "read_text_archive", "read_fe9_arc", "read_arc", "read_tpl_textures", "read_bch_textures", "read_ctpk_textures", "read_cgfx_textures",
+];
+
+fn le32(v: u32) -> [u8; 4] {
+    v.to_le_bytes()
+}
+/// hand-made minimal containers so that the typed readers also succeed
+fn typed_fixtures() -> Vec<(&'static str, Vec<u8>)> {
+    let mut v: Vec<(&'static str, Vec<u8>)> = Vec::new();
+    v.push(("binle.bin", fixture_bin(Endian::Little).serialize().unwrap()));
+    v.push(("binbe.bin", fixture_bin(Endian::Big).serialize().unwrap()));
+    v.push(("txtle.bin", fixture_text(TextArchiveFormat::Unicode, Endian::Little).serialize().unwrap()));
+    v.push(("txtbe.bin", fixture_text(TextArchiveFormat::ShiftJIS, Endian::Big).serialize().unwrap()));
+    let mut pack: IndexMap<String, Vec<u8>> = IndexMap::new();
+    pack.insert("a.bin".into(), vec![1, 2, 3]);
+    pack.insert("b".into(), vec![]);
+    if let Ok(Ok(b)) = catch(|| fe9_arc::serialize(&pack)) {
+        v.push(("pack.bin", b));
+    }
+    if let Ok(res) = std::env::var("MVH_RESOURCES") {
+        if let Ok(b) = std::fs::read(Path::new(&res).join("ArcTest.arc")) {
+            v.push(("arc.arc", b));
+        }
+    }
+    // TPL with no images
+    v.push(("tpl.tpl", vec![0x00, 0x20, 0xAF, 0x30, 0, 0, 0, 0, 0, 0, 0, 0x0C]));
+    // BCH with an empty texture table
+    let mut bch = vec![0x42, 0x43, 0x48, 0x00, 0, 0, 0, 0];
+    bch.extend_from_slice(&le32(56)); // contents
+    for _ in 0..11 {
+        bch.extend_from_slice(&le32(0));
+    }
+    bch.resize(56 + 0x24, 0);
+    bch.extend_from_slice(&le32(0));
+    bch.extend_from_slice(&le32(0));
+    v.push(("bch.bch", bch));
+    // CGFX whose texture dictionary is empty
+    let mut cg = vec![0x43, 0x47, 0x46, 0x58, 0xFF, 0xFE, 0x14, 0x00];
+    cg.extend_from_slice(&le32(0));
+    cg.extend_from_slice(&le32(168));
+    cg.extend_from_slice(&le32(1));
+    cg.extend_from_slice(&le32(0x41544144));
+    cg.extend_from_slice(&le32(0));
+    for i in 0..16u32 {
+        cg.extend_from_slice(&le32(0));
+        let pos = 20 + 8 + i * 8 + 4;
+        cg.extend_from_slice(&le32(156 - pos));
+    }
+    cg.resize(168, 0);
+    v.push(("cgfx.bin", cg));
+    // CTPK with one 8x8 RGBA8 texture
+    let mut ct = Vec::new();
+    ct.extend_from_slice(&le32(0x4B505443));
+    ct.extend_from_slice(&[1, 0, 1, 0]); // version, count
+    ct.extend_from_slice(&le32(0x80)); // texture_ptr
+    ct.extend_from_slice(&le32(256));
+    ct.extend_from_slice(&le32(0));
+    ct.extend_from_slice(&le32(0));
+    ct.resize(0x20, 0);
+    ct.extend_from_slice(&le32(0x40)); // filename_ptr
+    ct.extend_from_slice(&le32(256));
+    ct.extend_from_slice(&le32(0));
+    ct.extend_from_slice(&le32(0)); // format RGBA8
+    ct.extend_from_slice(&[8, 0, 8, 0, 1, 0, 0, 0]);
+    ct.extend_from_slice(&le32(0));
+    ct.extend_from_slice(&le32(0));
+    ct.resize(0x40, 0);
+    ct.extend_from_slice(b"t\0");
+    ct.resize(0x80, 0);
+    for i in 0..256u32 {
+        ct.push((i * 7 % 256) as u8);
+    }
+    v.push(("ctpk.ctpk", ct));
+    v
+}
+
+fn marker_dirs(game: &str) -> &'static [&'static str] {
+    match game {
+        "FE13" => &["E", "S", "G"],
+        "FE14" => &["@E", "@S", "@G"],
+        "FE15" => &["@NOA_EN", "@NOE_SP", "@J"],
+        _ => &[],
+    }
+}
+
+/// a world holding parseable files (plain, compressed, localised) for the typed helpers
+fn build_typed_world(rng: &mut Rng, game: &str, pool: &mut Pool) -> World {
+    let nl = rng.range(1, 3);
+    let w = World::create(nl);
+    let fx = typed_fixtures();
+    for (name, bytes) in &fx {
+        for variant in 0..4 {
+            if rng.chance(1, 3) {
+                continue;
+            }
+            let li = rng.below(nl);
+            let (fname, content): (String, Vec<u8>) = match variant {
+                0 => (name.to_string(), bytes.clone()),
+                1 => match catch(|| LZ13CompressionFormat {}.compress(bytes)) {
+                    Ok(Ok(z)) => (format!("{}.lz", name), z),
+                    _ => continue,
+                },
+                2 => match catch(|| LZ10CompressionFormat {}.compress(bytes)) {
+                    Ok(Ok(z)) => (format!("{}.cmp", name), z),
+                    _ => continue,
+                },
+                _ => (format!("{}.lz", name), bytes.clone()), // suffix without a stream
+            };
+            let mut rel = vec!["t".to_string()];
+            match rng.below(3) {
+                0 => {
+                    let md = marker_dirs(game);
+                    if !md.is_empty() {
+                        rel.push(rng.pick(md).to_string());
+                    }
+                    rel.push(fname);
+                }
+                1 => rel.push(format!("{}{}", rng.pick(&["s_", "e_", "d_"]), fname)),
+                _ => rel.push(fname),
+            }
+            let full = w.layers[li].join(rel.join("/"));
+            std::fs::create_dir_all(full.parent().unwrap()).unwrap();
+            std::fs::write(&full, &content).unwrap();
+            pool.paths.push(rel);
+        }
+    }
+    w
+}
+
+fn record_mode(out_path: &str, runs: usize, len: usize, from: usize) {
+    let seed = seed_from_env();
+    let profile = std::env::var("MVH_PROFILE").unwrap_or_default();
+    let cases: Vec<Value> = (0..runs).map(|i| json!(i)).collect();
+    run_isolated(&cases, from, out_path, |i, _| {
+        let mut rng = Rng::new(seed.wrapping_mul(1_000_003).wrapping_add(i as u64));
+        let mut events = Vec::new();
+        // now and then: the unsupported games
+        if i % 16 == 15 {
+            let w = World::create(1);
+            let g = if rng.chance(1, 2) { "FE11" } else { "FE12" };
+            let lang = *rng.pick(&LANGS);
+            if let Err(res) = open(&w, g, lang) {
+                events.push(json!({"op": "new", "game": g, "lang": lang, "res": res, "same": true, "post": []}));
+            } else {
+                events.push(json!({"op": "new", "game": g, "lang": lang, "res": ok(json!([])), "same": true, "post": []}));
+            }
+            return json!({"events": events});
+        }
+        let game = *rng.pick(&GAMES);
+        let lang = *rng.pick(&LANGS);
+        let typed_run = i % 4 == 3 && profile != "c13";
+        let mut pool = Pool { paths: Vec::new() };
+        let w = if typed_run { build_typed_world(&mut rng, game, &mut pool) } else { build_random_world(&mut rng, &mut pool) };
+        let mut snap = snapshot(&w);
+        let sys = match open(&w, game, lang) {
+            Ok(s) => s,
+            Err(res) => {
+                events.push(json!({"op": "new", "game": game, "lang": lang, "res": res, "same": true, "post": []}));
+                return json!({"events": events});
+            }
+        };
+        events.push(json!({"op": "reset", "game": game, "lang": lang, "res": ok(json!([])), "same": false, "post": snap.clone()}));
+        for _ in 0..len {
+            let loc = rng.chance(2, 5);
+            // MVH_PROFILE shifts the mix of calls: c12 = no listings, c13 = mostly listings (with mutations in between)
+            let r = match profile.as_str() {
+                "c12" => rng.below(65),
+                "c13" => {
+                    if typed_run || rng.chance(1, 4) {
+                        rng.below(27)
+                    } else {
+                        65 + rng.below(35)
+                    }
+                }
+                _ => rng.below(100),
+            };
+            let ev = if typed_run && r < 70 {
+                let p = rand_path(&mut rng, &pool, loc);
+                if r < 55 {
+                    mk_event(*rng.pick(&TYPED_READS), &p, false, loc)
+                } else {
+                    let mut e = mk_event(if rng.chance(1, 2) { "write_archive" } else { "write_text_archive" }, &p, false, loc);
+                    e["fix"] = json!(if rng.chance(1, 2) { "be" } else { "le" });
+                    pool.paths.push(p);
+                    e
+                }
+            } else if r < 22 {
+                let p = rand_path(&mut rng, &pool, loc);
+                let mut e = mk_event("write", &p, false, loc);
+                e["data"] = bytes_to_json(&rand_payload(&mut rng));
+                if !p.is_empty() {
+                    pool.paths.push(p);
+                }
+                e
+            } else if r < 27 {
+                let p = rand_path(&mut rng, &pool, loc);
+                mk_event("create_dir", &p, rng.chance(1, 3), loc)
+            } else if r < 45 {
+                let p = rand_path(&mut rng, &pool, loc);
+                mk_event("read", &p, false, loc)
+            } else if r < 65 {
+                let p = rand_path(&mut rng, &pool, loc);
+                let op = *rng.pick(&["exists", "file_exists", "directory_exists", "resolve"]);
+                mk_event(op, &p, rng.chance(1, 5), loc)
+            } else if r < 90 {
+                let mut p = rand_path(&mut rng, &pool, loc);
+                if rng.chance(2, 3) && !p.is_empty() {
+                    p.pop(); // a parent: more often a directory
+                }
+                let mut e = mk_event("list", &p, rng.chance(1, 3), loc);
+                if let Some(g) = *rng.pick(&GLOBS) {
+                    e["glob"] = json!({"some": true, "s": g});
+                }
+                e
+            } else {
+                let mut p = rand_path(&mut rng, &pool, loc);
+                if rng.chance(2, 3) && !p.is_empty() {
+                    p.pop();
+                }
+                mk_event("subdirectories", &p, rng.chance(1, 3), loc)
+            };
+            snap = run_events(&w, &sys, snap, std::slice::from_ref(&ev), &mut events);
+        }
+        json!({"events": events})
+    });
+}
 
 fn main() {
     install_panic_hook();
-    let locs: Vec<(&str, PathLocalizer)> = vec![
-        ("NoOp", PathLocalizer::NoOp(NoOpPathLocalizer {})),
-        ("FE9", PathLocalizer::FE9(FE9PathLocalizer {})),
-        ("FE14", PathLocalizer::FE14(FE14PathLocalizer {})),
-    ];
-    for p in ["", "/", ".", "..", "x/..", "m", "m/", "a/b/", "a/b", " /x", "a/./b", "./x", "x/.", "/a/b", "a//b", "a/b//", "..x/y", ".h", "a/ /b"] {
-        for (n, l) in &locs {
-            let r = catch(|| l.localize(p, &Language::EnglishNA).map_err(|e| e.to_string()));
-            println!("{:?} {} -> {:?}", p, n, r);
-        }
+    let args: Vec<String> = std::env::args().skip(1).collect();
+    match args.first().map(|s| s.as_str()) {
+        Some("localize") if args.len() == 3 => localize_mode(&args[1], &args[2]),
+        Some("replay") if args.len() >= 3 => replay_mode(&args[1], &args[2], parse_from(&args)),
+        Some("record") if args.len() >= 4 => record_mode(&args[1], args[2].parse().unwrap(), args[3].parse().unwrap(), parse_from(&args)),
+        _ => usage("mvh_fs localize <cases> <out> | replay <cases> <out> [--from k] | record <out> <runs> <len> [--from k]"),
     }
-    let root = std::env::temp_dir().join(format!("mvhprobe{}", std::process::id()));
-    let l0 = root.join("l0");
-    let l1 = root.join("l1");
-    std::fs::create_dir_all(l0.join("a")).unwrap();
-    std::fs::create_dir_all(l1.join("m/@E")).unwrap();
-    std::fs::create_dir_all(l1.join("m/k.bin")).unwrap();
-    std::fs::create_dir_all(l1.join("m/.hd")).unwrap();
-    std::fs::write(l0.join("a/z"), b"1").unwrap();
-    std::fs::write(l0.join("a.b"), b"2").unwrap();
-    std::fs::write(l1.join("a.b"), b"3").unwrap();
-    std::fs::write(l1.join("m/f.bin"), b"3").unwrap();
-    std::fs::write(l1.join("m/.h"), b"3").unwrap();
-    std::fs::write(l1.join("m/.hd/y.bin"), b"3").unwrap();
-    std::fs::write(l1.join("m/k.bin/x.bin"), b"3").unwrap();
-    std::fs::write(l1.join("m/@E/f.bin"), b"4").unwrap();
-    std::fs::write(l1.join("f.bin"), b"4").unwrap();
-    let fs = LayeredFilesystem::new(
-        vec![l0.display().to_string(), l1.display().to_string()],
-        Language::EnglishNA,
-        Game::FE14,
-    )
-    .unwrap();
-    for d in ["", "m", "m/", "a", "a.b", "q", "m/f.bin", "m/f.bin/", "."] {
-        for g in [None, Some("*"), Some("*.bin"), Some("**/*.bin"), Some("**/*"), Some("x*"), Some("f*")] {
-            println!("list {:?} {:?} -> {:?}", d, g, fs.list(d, g, false).map_err(|e| e.to_string()));
-        }
-        println!("subdirs {:?} -> {:?}", d, fs.subdirectories(d, false).map_err(|e| e.to_string()));
-        println!("list loc {:?} -> {:?}", d, fs.list(d, None, true).map_err(|e| e.to_string()));
-        println!("subdirs loc {:?} -> {:?}", d, fs.subdirectories(d, true).map_err(|e| e.to_string()));
-    }
-    for p in ["f.bin", "f.bin/", "m", "m/", "", "m/f.bin/x", "q"] {
-        println!(
-            "{:?}: exists {:?} file {:?} dir {:?} resolve {:?} read {:?} | loc: exists {:?} file {:?} dir {:?} resolve {:?} read {:?}",
-            p,
-            fs.exists(p, false).ok(),
-            fs.file_exists(p, false).ok(),
-            fs.directory_exists(p, false).ok(),
-            fs.resolve(p, false),
-            fs.read(p, false).map_err(|e| e.to_string()),
-            fs.exists(p, true).ok(),
-            fs.file_exists(p, true).ok(),
-            fs.directory_exists(p, true).ok(),
-            fs.resolve(p, true),
-            fs.read(p, true).map_err(|e| e.to_string()),
-        );
-    }
-    for p in ["f.bin/", "m", "", "m/f.bin/x/y", "n1/n2/f", "f.bin", "m/"] {
-        println!("write {:?} -> {:?}", p, fs.write(p, b"zz", false).map_err(|e| e.to_string()));
-        println!("write loc {:?} -> {:?}", p, fs.write(p, b"zz", true).map_err(|e| e.to_string()));
-        println!("create_dir {:?} -> {:?}", p, fs.create_dir(p, false).map_err(|e| e.to_string()));
-    }
-    let _ = std::process::Command::new("find").arg(&root).status();
-    std::fs::remove_dir_all(&root).unwrap();
 }
